@@ -21,6 +21,33 @@ def c17_overrides(eng):
     return out
 
 
+def c10_evaluation_goes_through_the_context(eng):
+    """C10 (also C07, C09): the per-class evaluation hook `ayns.on_evaluate` is invoked from EvalContext.evaluate_node only - every
+    other place of the package that needs the value of a node asks the context (`evaluate_node`), which memoises by identity and
+    enforces the require-all-safe mode.  A direct call anywhere else evaluates a node outside the memo."""
+    out = []
+    allowed = 'awesomeyaml/eval_context.py::EvalContext.evaluate_node'
+    sites = []
+    for key, fi in eng.repo.funcs.items():
+        for n in ast.walk(fi.node):
+            if isinstance(n, ast.Call) and isinstance(n.func, ast.Attribute) and n.func.attr == 'on_evaluate':
+                # a call nested in an inner function definition is attributed to that inner function as well; keep the innermost owner
+                sites.append((key, n.lineno))
+    innermost = {}
+    for key, ln in sites:
+        cur = innermost.get(ln)
+        if cur is None or len(key) > len(cur):
+            innermost[ln] = key
+    for ln, key in sorted(innermost.items(), key=lambda kv: (kv[1], kv[0])):
+        out.append((f'C10.on_evaluate-is-called-only-by-the-memoising-context@{key.split("::")[1]}:{ln}', key == allowed,
+                    f'{key} line {ln} calls .on_evaluate(...) directly' if key != allowed else 'inside evaluate_node'))
+    if not any(k == allowed for k in innermost.values()):
+        out.append(('C10.evaluate_node-calls-on_evaluate', False, 'EvalContext.evaluate_node does not call on_evaluate any more'))
+    return out
+
+
 def register(R):
+    R.tasks.append(Structural('structural:C10-evaluation-goes-through-the-context', ('C10', 'C07', 'C09'), c10_evaluation_goes_through_the_context,
+                              note='call sites of the evaluation hook: only EvalContext.evaluate_node'))
     R.tasks.append(Structural('structural:C17-mutators-overridden', ('C17',), c17_overrides,
                               note='every mutating method of list/dict named by C17 is defined by the node class (an inherited built-in mutator updates one view only)'))
